@@ -271,3 +271,22 @@ CLAIMS["C18"] = dict(
          "exploration goes on with the next seed. accept / connect time-outs are not covered.",
     design_ref="DESIGN.md §6 C18",
 )
+
+
+# the deciding method, per property (MANIFEST `technique`)
+_T_REPLAY = ("literal TLA+ specification checked exhaustively by TLC (defects are switches of the model); TLC behaviours replayed step by step "
+             "into the real code under a baton scheduler (spec -> code); explored real executions judged by the property oracle and their "
+             "point traces validated by TLC against the same specification (code -> spec, generated TV*.tla)")
+_T_QUEUE = ("literal TLA+ specification checked exhaustively by TLC; the real queue explored under a baton scheduler at atomic-access "
+            "granularity; every recorded history validated by TLC against QueueLin.tla (trace validation: a rejected history is a violation) "
+            "and by a Wing-Gong linearizability search")
+_T_EXPLORE = ("literal TLA+ specification(s) checked exhaustively by TLC (defects are switches of the model); the real code explored under a "
+              "baton scheduler at the granularity and with the labels of the specification (seeded PCT walk + preemption-bounded DFS, "
+              "virtual clock, real cancel), every execution judged by the property oracle; step-level replay / TLC trace validation for "
+              "the units taken over from other properties")
+for _p in ("C05", "C06", "C07", "C10", "C11", "C12", "C15", "C16"):
+    CLAIMS[_p]["technique"] = _T_REPLAY
+for _p in ("C03", "C04", "C19"):
+    CLAIMS[_p]["technique"] = _T_QUEUE
+for _p in ("C01", "C02", "C08", "C09", "C13", "C14", "C17", "C18"):
+    CLAIMS[_p]["technique"] = _T_EXPLORE
